@@ -33,12 +33,12 @@ def run_solver(cls_key, params, pos, t, hyps=(), externals=None, opaque=None, fe
     return sx.explore(thunk, hyps=hyps, feas=feas, max_paths=max_paths)
 
 
-def run_ctor(cls_key, params, hyps=(), externals=None, opaque=None, feas=default_feas, max_paths=400):
+def run_ctor(cls_key, params, hyps=(), externals=None, opaque=None, feas=default_feas, max_paths=400, accept_unsupported=False):
     def thunk(run):
         I = sx.Interp(run, externals=externals, opaque_funcs=opaque)
         o = construct(I, cls_key, params)
         return o
-    return sx.explore(thunk, hyps=hyps, feas=feas, max_paths=max_paths)
+    return sx.explore(thunk, hyps=hyps, feas=feas, max_paths=max_paths, accept_unsupported=accept_unsupported)
 
 
 def run_function(ref, args, kwargs=None, hyps=(), externals=None, opaque=None, feas=default_feas, max_paths=400, self_obj=None):
